@@ -288,7 +288,7 @@ func checkFlow(p flowParams, x *verifkit.Exec) []verifkit.Violation {
 		for _, c := range x.Controls {
 			if (c.Name == "stopwait" || c.Name == "stop") && c.Issued() {
 				issued = true
-				if !c.Returned() {
+				if !c.ReturnedInTime() {
 					a.bad("C06/stop-never-returns", "the graceful stop (%s) never returned although every plugin and the store answered (wedged)", c.Name)
 				}
 			}
@@ -354,6 +354,7 @@ func checkFlow(p flowParams, x *verifkit.Exec) []verifkit.Violation {
 	x.Obs["statuses"] = statuses
 	a.checkRecovery(x)
 	a.checkControl(x)
+	a.checkReconf(x)
 	return a.out
 }
 
@@ -614,7 +615,7 @@ func (a *analysis) checkControl(x *verifkit.Exec) {
 	// no wedge: every control call returned (all plugins and the store answered everything that was asked of them)
 	if !x.StepCapHit && len(x.W.Pending()) == 0 {
 		for _, c := range x.Controls {
-			if c.Issued() && !c.Returned() {
+			if c.Issued() && !c.ReturnedInTime() {
 				a.bad("C11/control-call-never-returns", "control call %s never returned although every plugin and store request was answered (wedged)", c.Name)
 			}
 		}
@@ -634,4 +635,97 @@ func (a *analysis) checkControl(x *verifkit.Exec) {
 			a.bad("C11/run-alive-but-status-stopped", "connectors of a run are still open while the stored status is %s", status)
 		}
 	}
+}
+
+
+// checkReconf is the C13 oracle: a live processor reconfiguration takes effect at a record boundary.
+func (a *analysis) checkReconf(x *verifkit.Exec) {
+	if len(a.p.Reconf) == 0 {
+		return
+	}
+	genNum := func(arg string) int {
+		k := strings.Index(arg, "gen=g")
+		if k < 0 {
+			return -1
+		}
+		n := 0
+		fmt.Sscanf(arg[k+5:], "%d", &n)
+		return n
+	}
+	lastGen := map[string]int{}
+	processedBy := map[recKey][]int{}
+	deadRunAtCall := map[string]bool{}
+	srcOpen := 0
+	floor := 0       // generation every record processed from now on must at least have
+	var floorSeq int // set when a reconfigure returned nil
+	failedOnly := true
+	for _, e := range a.evs {
+		switch {
+		case strings.HasPrefix(e.Comp, "proc:") && e.Kind == "in":
+			g := genNum(e.Arg)
+			src := strings.SplitN(e.Arg, "|", 2)[0]
+			k := recKey{src, e.Idx}
+			processedBy[k] = append(processedBy[k], g)
+			if g < floor {
+				a.bad("C13/old-configuration-after-switch", "record %d was processed by configuration g%d (event #%d) although a reconfigure to g%d had already returned successfully (event #%d)", e.Idx, g, e.Seq, floor, floorSeq)
+			}
+		case isDest(e.Comp) && e.Kind == "recv":
+			g := genNum(e.Arg)
+			if g >= 0 {
+				if g < lastGen[e.Comp] {
+					a.bad("C13/configurations-interleaved", "destination %s received record %d processed by g%d after a record processed by g%d (event #%d): the switch did not happen at one record boundary", e.Comp, e.Idx, g, lastGen[e.Comp], e.Seq)
+				}
+				lastGen[e.Comp] = g
+			}
+		case isSource(e.Comp) && e.Kind == "open":
+			srcOpen++
+		case isSource(e.Comp) && e.Kind == "teardown":
+			srcOpen--
+		case e.Comp == "ctl" && e.Kind == "call" && strings.HasPrefix(e.Arg, "reconf"):
+			deadRunAtCall[e.Arg] = srcOpen <= 0
+		case e.Comp == "ctl" && (e.Kind == "reconfA.ret" || e.Kind == "reconfB.ret"):
+			if e.Arg == "nil" {
+				failedOnly = false
+				g := 1
+				if e.Kind == "reconfB.ret" {
+					g = 2
+				}
+				if g > floor {
+					floor, floorSeq = g, e.Seq
+				}
+			}
+		}
+	}
+	_ = failedOnly
+	for k, gens := range processedBy {
+		if len(gens) > 1 && !restarted(a.evs) {
+			a.bad("C13/record-processed-twice", "record %d of %s was processed %d times (by configurations %v) within one run", k.idx, k.src, len(gens), gens)
+		}
+	}
+	// every reconfigure request gets an answer while the plugins respond
+	if !x.StepCapHit && len(x.W.Pending()) == 0 {
+		for _, c := range x.Controls {
+			if strings.HasPrefix(c.Name, "reconf") && c.Issued() && !c.ReturnedInTime() {
+				if deadRunAtCall[c.Name] {
+					// the request was issued while the run had already failed and the pipeline sat in the recovery back-off:
+					// the dead run is still published, the request is staged on a processor node nobody runs any more
+					a.bad("C13/reconfigure-on-dead-run-during-recovery-backoff/"+a.p.Engine, "the reconfigure request %s, issued while the failed run waits for its recovery restart, never returns (it is staged on the dead run's processor node)", c.Name)
+					continue
+				}
+				a.bad("C13/reconfigure-never-returns", "the reconfigure request %s never returned although every plugin call was answered: the request was lost", c.Name)
+			}
+		}
+	}
+	// a request that failed because the new processor could not be opened leaves the old one running: covered by the
+	// floor rule (no success -> floor stays) and by the data-path oracles (records keep flowing in order).
+}
+
+func restarted(evs []verifkit.Event) bool {
+	n := 0
+	for _, e := range evs {
+		if isSource(e.Comp) && e.Kind == "open" {
+			n++
+		}
+	}
+	return n > 1
 }
